@@ -265,7 +265,20 @@ fn open_live(cfg: &Config) -> Live {
             ),
         })
         .collect();
-    Live { sc, w, ro, app, handles, model: BTreeMap::new(), nsrc: 0 }
+    let mut model = BTreeMap::new();
+    if cfg.cap == CapMode::Odd {
+        // start from a shard that is exactly full: ceil(total / shards) day-old unread entries in shard 0 (a candidate
+        // shard of every key); nothing may leave it until a further entry arrives
+        let day = run::base_time_ns() as i128 - 86_400_000_000_000;
+        let dir = w.join(ops::shard_dir_name(0));
+        for (i, k) in cfg.keys().iter().take(cfg.dir_capacity()).enumerate() {
+            let val = Val::one(5 + i as u8);
+            let m = day - (10 - i as i128) * 60_000_000_000;
+            world::plant(&dir.join(&k.name), &val.bytes(), 0o444, m - 120_000_000_000, m);
+            model.insert(k.name.clone(), val);
+        }
+    }
+    Live { sc, w, ro, app, handles, model, nsrc: 0 }
 }
 
 fn read_all(mut f: std::fs::File) -> Vec<u8> {
@@ -888,7 +901,8 @@ pub fn run(tier: Tier, shard: Shard, rep: &mut Report) {
         keys with the same shard pair, the swapped pair, and one whose secondary image equals its primary (fix-up); alphabet per handle \
         {set k A|B, put k C, get k, touch k, (stacked) ensure k D} x environment answers {trigger fires / does not, random other shard \
         in {0, 1, n-1}}; capacities 'tight' (2 per directory: evictions all the time), 'roomy' (2^40) and 'odd' (2 x shards + 1 on 3 and 4 \
-        shards: a total the shard count does not divide; each directory holds ceil(total/shards) files). States are deduplicated on a \
+        shards: a total the shard count does not divide; each directory holds ceil(total/shards) files; these searches start from a \
+        shard that is exactly full). States are deduplicated on a \
         canonical key (per directory: name, value, mtime rank with ties, read mark; per handle: load estimates) inside each worker; \
         every step is checked against a map model in which an entry may vanish only as a Second Chance victim of a maintenance whose \
         opendir and unlinks are in the call trace (decided by brute force over tie orders), plus: no key in two directories or outside \
